@@ -147,7 +147,7 @@ func ruleDETERM(w *World, r *Report) {
 		}
 	}
 	r.floor("DETERM", "stores to Encoder.recoverySet", nStore, 1)
-	determPathsPar2(w, r)
+	determPathsPar2(w, r, true)
 	determGoroutineOption(w, r)
 	// the name hashed is the relative path
 	if fn := w.Fn("(*par2.Encoder).LoadFileData"); fn != nil {
@@ -369,7 +369,7 @@ func comparatorReadsSlice(c ssa.CallInstruction) bool {
 	return false
 }
 
-func determPathsPar2(w *World, r *Report) {
+func determPathsPar2(w *World, r *Report, everyInput bool) {
 	// D-d par2
 	if fn := w.Fn("par2.create"); fn != nil {
 		ne := callsIn(fn, "par2.newEncoder")
@@ -391,9 +391,16 @@ func determPathsPar2(w *World, r *Report) {
 			} else {
 				r.bad("DETERM", "D-d:par2.create:basePath", w.ipos(ne[0]), "basePath is not filepath.Dir(filepath.Abs(parPath)): the stored names would depend on the current directory or the spelling of parPath")
 			}
-			// filePaths: every element store is Abs(path)#0
+			// filePaths: every element (index store or append) is Abs(path)#0, and every iteration of the
+			// loop over the inputs contributes one (no input is skipped depending on its spelling)
 			okPaths, nEl := true, 0
-			if mk, isMk := stripConv(args[3]).(*ssa.MakeSlice); isMk {
+			isAbs := func(v ssa.Value) bool {
+				ex, isEx := stripConv(v).(*ssa.Extract)
+				return isEx && ex.Index == 0 && callOf(ex.Tuple, "path/filepath.Abs") != nil
+			}
+			var contribBlocks []*ssa.BasicBlock
+			arg := stripConv(args[3])
+			if mk, isMk := arg.(*ssa.MakeSlice); isMk {
 				for _, ref := range referrersOf(mk) {
 					ia, isIa := ref.(*ssa.IndexAddr)
 					if !isIa {
@@ -405,14 +412,41 @@ func determPathsPar2(w *World, r *Report) {
 							continue
 						}
 						nEl++
-						ex, isEx := stripConv(st.Val).(*ssa.Extract)
-						if !isEx || ex.Index != 0 || callOf(ex.Tuple, "path/filepath.Abs") == nil {
+						contribBlocks = append(contribBlocks, st.Block())
+						if !isAbs(st.Val) {
+							okPaths = false
+						}
+					}
+				}
+			} else if apps, _ := appendWeb(arg); len(apps) > 0 {
+				for _, ap := range apps {
+					vals, okv := appendedValues(ap)
+					if !okv {
+						okPaths = false
+						continue
+					}
+					for _, v := range vals {
+						nEl++
+						contribBlocks = append(contribBlocks, ap.Block())
+						if !isAbs(v) {
 							okPaths = false
 						}
 					}
 				}
 			} else {
 				okPaths = false
+			}
+			// no skipped input: each contributing block dominates the back-edges of the loop it is in
+			for _, cb := range contribBlocks {
+				hdr, _ := enclosingLenLoop(cb)
+				if hdr == nil {
+					continue
+				}
+				for _, p := range hdr.Preds {
+					if hdr.Dominates(p) && !cb.Dominates(p) && everyInput {
+						r.bad("DETERM", "D-d:par2.create:every-input", w.ipos(p.Instrs[len(p.Instrs)-1]), "an input path can be skipped when the list handed to the encoder is built: which files are protected then depends on something other than the files named (e.g. on how a path was spelled)")
+					}
+				}
 			}
 			if okPaths && nEl > 0 {
 				r.ok("DETERM", "D-d:par2.create:filePaths", w.ipos(ne[0]), "every input path is passed through filepath.Abs (which also cleans it) before newEncoder relativises it")
